@@ -44,20 +44,7 @@ func TestWorldReal(t *testing.T) {
 func runHistory(t *rapid.T, real bool) {
 	opts := world.Options{RealSecrets: real, NoRetainAEAD: true}
 	// a third of the histories run over a real Metastore implementation (over its fake database)
-	backend := rapid.SampledFrom([]string{"", "", "", "", "", "", "", "", "", "", "", "", "memory", "sql-mysql", "sql-postgres", "sql-oracle", "dynamodb-v1", "dynamodb-v2"}).Draw(t, "metastore")
-	if backend != "" {
-		b := backing.New(backend)
-		defer b.Done()
-		defer func() {
-			if u := b.Unsupported(); len(u) > 0 {
-				fmt.Printf("VERIF-INCONCLUSIVE fake cannot interpret: %v\n", u)
-				t.Fatalf("inconclusive: the fake cannot interpret %v", u)
-			}
-		}()
-		opts.Backing = b
-		opts.SimpleIDs = strings.HasPrefix(backend, "sql-") // VARCHAR(255): the over-long id atoms are refused by the database
-		kit.Rec.Label("metastore:" + backend)
-	}
+	defer backing.Use(t, &opts, 33)()
 	w := world.New(t, opts)
 	defer w.Teardown()
 	shapes := map[string]bool{}
